@@ -151,10 +151,10 @@ Rename(t, map) ==
   IN Tbl(oc, [i \in 1..Len(t.rows) |-> [c \in SetOf(oc) |-> t.rows[i][OldName(map, c)]]])
 
 \* ---------------------------------------------------------------- order_rows
-\* lim = 0: no limit
+\* lim = 0: no limit; lim = -1 stands for an explicit limit of zero rows (limit=0)
 OrderRows(t, cols, rev, lim) ==
   LET s == SortRows(t.rows, cols, rev)
-  IN Tbl(t.cols, IF lim = 0 \/ lim >= Len(s) THEN s ELSE SubSeq(s, 1, lim))
+  IN Tbl(t.cols, IF lim = 0 \/ lim >= Len(s) THEN s ELSE IF lim < 0 THEN <<>> ELSE SubSeq(s, 1, lim))
 
 \* ---------------------------------------------------------------- natural_join
 \* on = << <<left key, right key>>, ... >>.  Null keys never match (C16).  Every column the two
